@@ -701,13 +701,113 @@ E = frozenset()
 class TagFlow:
     """which (source row, component) each byte of a value was accumulated from"""
 
-    def __init__(self, fn, sym, site_tags):
-        self.fn, self.sym, self.site_tags = fn, sym, site_tags
+    def __init__(self, prog, fn, lp, cs, ps):
+        self.prog, self.fn, self.lp, self.sym = prog, fn, lp, lp.sym
+        self.cs, self.ps = cs, ps
         self.busy = set()
         self.memo = {}
+        self.fail = None
+        from ..cfg import Dom
+        self.dom = Dom(fn)
+
+    # ---- multiply sites evaluated in place (their operands are already substituted)
+    def site(self, e):
+        n, a = _name(e), _args(e)
+        A, B = self.lp.vec(_fold(a[0])), self.lp.vec(_fold(a[1]))
+        if A is None or B is None or len(A) != len(B):
+            return "?"
+        lanes = self.lp.multiply(n, A, B)
+        if any(isinstance(l, tuple) for l in lanes):
+            return "?"
+        lb = 4 if "madd" in n else 8
+        out = []
+        for terms in lanes:
+            out += [frozenset((row, (off % self.ps) // self.cs) for (row, off, base, j, nb) in terms)] * lb
+        return out
+
+    # ---- element k of an array of accumulators
+    def elem(self, L, k, depth):
+        key = ("elem", L, k)
+        if key in self.busy:
+            return None
+        if key in self.memo:
+            return self.memo[key]
+        self.busy.add(key)
+        try:
+            out = None
+            for (bb, j, rv, whole) in self.sym.defs.get(L, []):
+                if whole:
+                    e = self.sym.rvalue(rv, bb, (bb, j))
+                    if e[0] == "rep":
+                        v = self.vec(e[1], depth + 1, (bb, j))
+                    elif e[0] == "agg" and e[1] == "array" and k < len(e[4]):
+                        v = self.vec(e[4][k], depth + 1, (bb, j))
+                    else:
+                        return "?"
+                else:
+                    st = self.fn.blocks[bb]["s"][j] if j != "term" else None
+                    if st is None or len(st[1]) != 2 or not isinstance(st[1][1], list):
+                        return "?"
+                    pr = st[1][1]
+                    if pr[0] == "ci":
+                        if pr[1] != k:
+                            continue
+                        mp = {}
+                    elif pr[0] == "i":
+                        ix = strip(self.sym.local_at(pr[1], (bb, j)))
+                        rvars = _range_vars(self.sym, ix)
+                        if ix not in rvars or not (rvars[ix][0] <= k <= rvars[ix][1]):
+                            return "?"
+                        mp = {ix: ("const", k, "usize")}
+                    else:
+                        return "?"
+                    from .validators import subst as esubst
+                    e = _fold(esubst(self.sym.rvalue(rv, bb, (bb, j)), mp))
+                    if _range_vars(self.sym, e):
+                        return "?"
+                    v = self.vec(e, depth + 1, (bb, j))
+                if v is None:
+                    continue
+                if v == "?":
+                    return "?"
+                if out is None:
+                    out = list(v)
+                elif len(out) == len(v):
+                    out = [a | b for a, b in zip(out, v)]
+                else:
+                    return "?"
+            if not self.busy - {key}:
+                self.memo[key] = out
+            return out
+        finally:
+            self.busy.discard(key)
+
+    # ---- a scalar buffer filled by a vector store
+    def buffer(self, L, at, depth):
+        best = None
+        for c in self.fn.calls():
+            nm = c.method or short(c.name)
+            if not re.match(r"^_mm(256)?_storeu?_si(128|256)$", nm) or len(c.args) < 2:
+                continue
+            dst = self.sym.operand(c.args[0], (c.bb, "term"))
+            if ("local", L, self.fn.local_name(L)) not in _atoms_lp(dst):
+                continue
+            if at is not None and not (self.dom.dominates(c.bb, at[0])):
+                continue
+            if best is None or self.dom.dominates(best.bb, c.bb):
+                best = c
+        if best is None:
+            return "?"
+        return self.vec(self.sym.operand(best.args[1], (best.bb, "term")), depth + 1, (best.bb, "term"))
 
     def vec(self, e, depth=0, at=None):
-        if depth > 120 or not isinstance(e, tuple) or not e:
+        r = self._vec(e, depth, at)
+        if r == "?" and self.fail is None:
+            self.fail = fmt(e)[:160] if isinstance(e, tuple) else repr(e)[:80]
+        return r
+
+    def _vec(self, e, depth=0, at=None):
+        if depth > 160 or not isinstance(e, tuple) or not e:
             return "?"
         k = e[0]
         if k == "cast":
@@ -772,17 +872,28 @@ class TagFlow:
                 out += v
             return out
         if k == "index":
-            base, ix = e[1], strip(e[2])
+            base, ix = strip(e[1]), strip(e[2])
             if base[0] in ("call", "callat") and _name(base) == "to_le_bytes" and ix[0] == "const":
                 v = self.vec(_args(base)[0], depth + 1, at)
                 if isinstance(v, list) and ix[1] < len(v):
                     return [v[ix[1]]]
+                return "?"
+            if base[0] == "local" and ix[0] == "const":
+                ty = self.fn.local_ty(base[1]) or ""
+                m = re.match(r"^\[[iu](32|64); \d+\]$", ty)
+                if m:
+                    v = self.buffer(base[1], at, depth)
+                    es = int(m.group(1)) // 8
+                    if isinstance(v, list) and (ix[1] + 1) * es <= len(v):
+                        return v[ix[1] * es:(ix[1] + 1) * es]
+                    return "?"
+                return self.elem(base[1], ix[1], depth)
             return "?"
         if k not in ("callat", "call"):
             return "?"
         n, a, cg = _name(e), _args(e), _cargs(e)
-        if k == "callat" and (e[1], n) in self.site_tags:
-            return self.site_tags[(e[1], n)]
+        if MULS.match(n) and len(a) == 2:
+            return self.site(e)
         here = (e[1], "term") if k == "callat" else at
         V = lambda x: self.vec(x, depth + 1, here)
         w = 32 if "256" in n else 16
@@ -870,79 +981,105 @@ class TagFlow:
         if n == "clip" and len(a) == 2:
             A = V(a[1])
             if isinstance(A, list):
-                return [frozenset().union(*A)] * (1 if self.cs == 1 else 2)
+                return [frozenset().union(*A)] * self.cs
             return "?"
         if n in ("transmute", "clone", "into", "from"):
             return V(a[0]) if a else "?"
         return "?"
 
 
+def _atoms_lp(e, acc=None):
+    acc = set() if acc is None else acc
+    if isinstance(e, tuple) and e:
+        if e[0] in ("local", "param"):
+            acc.add(e)
+        for x in e:
+            if isinstance(x, tuple):
+                _atoms_lp(x, acc)
+    return acc
+
+
+def _store_statements(fn, sym):
+    """(dst row expression, block, index, statement) of stores through get_unchecked_mut(dst_row*, ..)"""
+    ptrs = {}
+    for c in fn.calls():
+        if "get_unchecked_mut" in c.name and c.dest:
+            ptrs[c.dest[0]] = strip(sym.operand(c.args[0], (c.bb, "term")))
+    out = []
+    for b, blk in enumerate(fn.blocks):
+        if blk["c"]:
+            continue
+        for j, st in enumerate(blk["s"]):
+            if st[0] == "a" and st[1] and st[1][0] in ptrs and "*" in st[1][1:]:
+                out.append((ptrs[st[1][0]], b, j, st))
+    return out
+
+
 def stores(rep, prog, rule):
     rep.rule(rule, "in the x86 horizontal kernels byte b of the pixel stored for destination row i "
              "is accumulated from products of source row i, component b // component_size only: the "
              "(row, component) tags of the multiply lanes (from the pairing analysis) are followed "
-             "through the accumulator additions, shifts, packs, 128-bit extracts, horizontal adds, "
-             "64-bit extractions and clip calls to the store; a component or a row that ends up in "
-             "the wrong place is a violation, a store that is not followed is undecided")
+             "through the accumulator additions (arrays of accumulators element by element, small "
+             "constant loops unrolled), shifts, packs, 128-bit extracts, horizontal adds, 64-bit "
+             "extractions, scalar buffers filled by vector stores, clip calls and one level of "
+             "store helpers to the store; a component or a row that ends up in the wrong place is a "
+             "violation, a store that is not followed is undecided")
+    from .validators import subst as esubst
     n = und = 0
     for f in sorted(prog.fns.values(), key=lambda x: x.id):
         m = re.match(r"^convolution::(u8|u16)x(\d)::(sse4|avx2)::horiz_convolution", f.name)
         if not m or f.kind == "closure":
             continue
         cs = 1 if m.group(1) == "u8" else 2
-        ncomp = int(m.group(2))
-        ps = cs * ncomp
+        ps = cs * int(m.group(2))
         ks = 2 if m.group(1) == "u8" else 4
-        sites = [c for c in f.calls() if MULS.match(c.method or short(c.name)) and len(c.args) == 2]
-        if not sites:
+        if not [c for c in f.calls() if MULS.match(c.method or short(c.name))]:
             continue
         lp = LanePair(prog, f, ps, cs, ks)
-        site_tags = {}
-        ok_sites = True
-        for c in sites:
-            nm = c.method or short(c.name)
-            ea = lp.sym.operand(c.args[0], (c.bb, "term"))
-            eb = lp.sym.operand(c.args[1], (c.bb, "term"))
-            if _range_vars(lp.sym, ea) or _range_vars(lp.sym, eb):
-                ok_sites = False
-                continue
-            A, B = lp.vec(ea), lp.vec(eb)
-            if A is None or B is None or len(A) != len(B):
-                ok_sites = False
-                continue
-            lanes = lp.multiply(nm, A, B)
-            if any(isinstance(l, tuple) for l in lanes):
-                ok_sites = False
-                continue
-            lb = 4 if "madd" in nm else 8
-            out = []
-            for terms in lanes:
-                out += [frozenset((row, (off % ps) // cs) for (row, off, base, j, nb) in terms)] * lb
-            site_tags[(c.bb, nm)] = out
-        tf = TagFlow(f, lp.sym, site_tags)
-        tf.cs = cs
-        ptrs = {}
+        tf = TagFlow(prog, f, lp, cs, ps)
+        work = []          # (dst expr, value expr, position, where)
+        for dst, b, j, st in _store_statements(f, lp.sym):
+            work.append((dst, lp.sym.rvalue(st[2], b, (b, j)), (b, j), st[3]))
+        # one level of store helpers: helper(value, dst_row, ..) whose body stores through
+        # get_unchecked_mut(dst_row, ..)
         for c in f.calls():
-            if "get_unchecked_mut" in c.name and c.dest:
-                ptrs[c.dest[0]] = fmt(strip(lp.sym.operand(c.args[0], (c.bb, "term"))))
-        for b, blk in enumerate(f.blocks):
-            if blk["c"]:
+            tg = prog.call_targets(c)
+            if len(tg) != 1 or tg[0].kind == "closure" or not tg[0].name.startswith("convolution::"):
                 continue
-            for j, st in enumerate(blk["s"]):
-                if not (st[0] == "a" and st[1] and st[1][0] in ptrs and "*" in st[1][1:]):
-                    continue
-                dst = ptrs[st[1][0]]
-                if "dst_row" not in dst:
-                    continue
+            h = tg[0]
+            hs = Sym(h)
+            hst = _store_statements(h, hs)
+            if not hst or len(c.args) != h.arg_count:
+                continue
+            mp = {("param", i + 1, h.local_name(i + 1)): lp.sym.operand(a, (c.bb, "term"))
+                  for i, a in enumerate(c.args)}
+            for dst, b, j, st in hst:
+                work.append((esubst(dst, mp), esubst(hs.rvalue(st[2], b, (b, j)), mp), (c.bb, "term"), c.at))
+        for dst, val, at, where in work:
+            if "dst_row" not in fmt(dst):
+                continue
+            rv = _range_vars(lp.sym, dst)
+            _range_vars(lp.sym, val, rv)
+            combos = [{}]
+            for atom, (lo, hi) in sorted(rv.items(), key=repr):
+                combos = [dict(list(cmb.items()) + [(atom, v_)]) for cmb in combos
+                          for v_ in range(lo, hi + 1)][:16]
+            for cmb in combos:
+                mp = {a_: ("const", v_, "usize") for a_, v_ in cmb.items()}
+                d2 = _fold(esubst(dst, mp)) if mp else dst
+                v2 = _fold(esubst(val, mp)) if mp else val
                 n += 1
                 rep.touch(f)
-                key = "%s|store->%s" % (f.name, dst[:40])
-                v = tf.vec(lp.sym.rvalue(st[2], b, (b, j)), 0, (b, j)) if ok_sites else "?"
+                dname = fmt(d2)[:40]
+                key = "%s|store->%s" % (f.name, dname)
+                tf.fail = None
+                v = tf.vec(v2, 0, at)
                 if not isinstance(v, list) or len(v) < ps:
                     und += 1
-                    rep.unk(rule, key, st[3], "the stored value is not followed to the accumulators")
+                    rep.unk(rule, key, where, "the stored value is not followed to the accumulators (%s)"
+                            % (tf.fail or "no product reaches it"))
                     continue
-                want_row = dst.replace("dst_row", "src_row")
+                want_row = fmt(d2).replace("dst_row", "src_row")
                 bad = None
                 for bi in range(ps):
                     tags = v[bi]
@@ -954,10 +1091,10 @@ def stores(rep, prog, rule):
                             bad = "byte %d (component %d) of the stored pixel is accumulated from " \
                                   "component %d of the source" % (bi, comp, c_)
                         elif row != want_row:
-                            bad = "the pixel stored into %s is accumulated from %s" % (dst, row)
+                            bad = "the pixel stored into %s is accumulated from %s" % (dname, row)
                 if bad:
-                    rep.bad(rule, key + "|misplaced", st[3], "%s: %s" % (f.name, bad))
+                    rep.bad(rule, key + "|misplaced", where, "%s: %s" % (f.name, bad))
                 else:
-                    rep.ok(rule, key, st[3], "%d bytes from %s, components in order" % (ps, want_row))
+                    rep.ok(rule, key, where, "%d bytes from %s, components in order" % (ps, want_row))
     rep.floor(rule, "pixel stores of the horizontal x86 kernels", n, 20)
     rep.note("%s: %d of %d stores are followed to the accumulators" % (rule, n - und, n))
